@@ -122,6 +122,33 @@ PROPS["C09"] = dict(
     real=["dissect.hypervisor (all parsers + tools.envelope.main)", "dissect.util.stream", "dissect.cstruct", "defusedxml", "tarfile/gzip (stdlib)", "PyCryptodome"],
 )
 
+_FAULT_RULE = ("one evaluation = one (base input, fault) pair from an enumerated plan. Base inputs: one stub image per format/feature kind "
+               "(quick; six per kind in thorough), a chain of every kind, a multi-extent descriptor world, and the repo's real fixtures "
+               "(disks, Hyper-V, envelope, keystore, vmtar, encrypted VMX). distinct = (base, fault kind, field/fault name, outcome class) "
+               "tuples; every evaluation is non-trivial (it carries a fault, except one fault-free control per base).")
+PROPS["C11"] = dict(
+    engine="faultsim", level="fault_enumeration", quick=0, thorough=0, quick_wall=600, thorough_wall=2400,
+    rule=_FAULT_RULE + " Faults (C11): every field of the writer's field map x {0, 1, max, max-1, value+-1, self-reference, other tables' "
+         "offsets, x2, 2^31, 2^32-1}, 'late' variants after open, truncation at structure boundaries +-1, seeded multi-byte corruption, "
+         "crafted reference cycles and inflate bombs. Oracle: returns or raises within A+B*(input+request) line events (A=1e6, B=16), "
+         "peak traced allocation <= C+D*(...) (C=64 MiB, D=32; measured on every 4th evaluation), every inflate output <= its allocation unit.",
+    expected_probes=["outcome.served", "outcome.refused", "outcome.raised"],
+    assumptions=["budgets are linear in bytes delivered by the storage seam (capped by bytes stored) + request bytes",
+                 "step counts are LINE events of all Python code executed inside the call (sys.monitoring)"],
+    real=["dissect.hypervisor (all parsers)", "dissect.util.stream", "dissect.cstruct", "defusedxml", "tarfile/gzip", "zlib (through a recording proxy)", "PyCryptodome"],
+)
+PROPS["C12"] = dict(
+    engine="faultsim", level="fault_enumeration", quick=0, thorough=0, quick_wall=600, thorough_wall=2400,
+    rule=_FAULT_RULE + " Faults (C12): for every gate of the property's mechanism list - every single-bit flip of each validated "
+         "signature (exhaustive), every version in a dense range around the accepted ones, out-of-range cluster_bits, crypt_method, "
+         "and explicit gates (data-file bit without data file, backing name without backing argument, unknown compression type, "
+         "sub-cluster size, missing VHDX regions/items, active-header signature/version, Parallels image type, missing "
+         "DiskDescriptor.xml, descriptor-named sparse extent with a foreign magic, envelope attributes/cipher/footer version, "
+         "keystore mode, key-safe identifier and locator kinds). Oracle: open raises.",
+    expected_probes=["outcome.refused"],
+    assumptions=["signatures a reader does not validate by design (VHD cookie, VMDK(fh) on unknown magic = flat extent, inactive header copies) are not gates"],
+)
+
 NOT_BUILT_REASON = "check not built yet in this session (see DESIGN.md section 11 for the build order); not claimed until its engine exists"
 
 NOT_APPLICABLE = {
@@ -136,6 +163,15 @@ _DISK_NOTE = ("trusted base: the writer stub's reading of the format, the refere
 _DISK_TECH = "deterministic simulation (stub writer peer + simulated storage + reference model oracle), seeded search, ddmin replay"
 
 MANIFEST_TEXT = {
+    "C11": dict(text="deterministic simulation with enumerated faults on stored bytes (field-aware values, truncation points, corruption, "
+                     "cycles, bombs, late faults) under a deterministic step meter and allocation meters; complete over the enumerated "
+                     "plan, which is itself a sample of 'all byte strings'",
+                design_ref="DESIGN.md 4/C11", note="budgets are calibrated constants (>=50x fault-free maxima); a hang is a step-budget event, not a timeout",
+                technique="deterministic simulation with fault enumeration (field map x value set, truncation, cycles, bombs) + step/allocation meters"),
+    "C12": dict(text="deterministic simulation with enumerated gate faults (exhaustive single-bit flips of every validated signature, version "
+                     "ranges, unsupported features); oracle: open raises",
+                design_ref="DESIGN.md 4/C12", note="the gate whitelist is taken from the property's mechanism list; enumeration is exhaustive per base input for signatures",
+                technique="deterministic simulation with fault enumeration over every gate (bit flips of signatures, versions, feature flags)"),
     "C09": dict(text="seeded deterministic simulation with error-path fault injection; seam-side mutation ledger (simulated handles and "
                      "namespace, sys.addaudithook) as the invariant after every workload; dynamic part of the property only",
                 design_ref="DESIGN.md 4/C09", note="does not decide the 'statically, all code paths' half of the quantifier; reach is reported as "
